@@ -81,12 +81,13 @@ where
 pub struct Src<F> {
     data: Vec<F>,
     pos: usize,
-    pub pulls: usize,
+    /// shared with the driver: still readable after the converter has been consumed (`tail`)
+    pub pulls: std::rc::Rc<std::cell::Cell<usize>>,
 }
 impl<F: Frame> Signal for Src<F> {
     type Frame = F;
     fn next(&mut self) -> F {
-        self.pulls += 1;
+        self.pulls.set(self.pulls.get() + 1);
         let f = if self.pos < self.data.len() { self.data[self.pos] } else { F::EQUILIBRIUM };
         self.pos += 1;
         f
@@ -104,8 +105,9 @@ where
     let mut echo = cfg_echo(cfg, <F::Sample as Enc>::FMT, F::CHANNELS);
     echo["src"] = enc_frames(&data);
     echo["ctor"] = json!(ctor);
+    let pulls = std::rc::Rc::new(std::cell::Cell::new(0usize));
     let built = catch(|| {
-        let src = Src { data, pos: 0, pulls: 0 };
+        let src = Src { data, pos: 0, pulls: pulls.clone() };
         let s = fresh::<F>(depth);
         match ctor.as_str() {
             "scale" => Converter::scale_playback_hz(src, s, 1.0),
@@ -119,13 +121,37 @@ where
             out.line(&json!({"ev":"reset","comp":"sinc_conv","cfg":echo,"r":r_panic(),"o":{"ok":false}}));
             return;
         }
-        Some(c) => c,
+        Some(c) => Some(c),
     };
     out.line(&json!({"ev":"reset","comp":"sinc_conv","cfg":echo,"r":r_unit(),"o":{"ok":true}}));
     for op in &ex[1..] {
+        if op["ev"] == "tail" {
+            // the converter consumed by the provided `Signal::take` on the concrete type: its next m frames
+            let m = op["a"]["m"].as_u64().unwrap() as usize;
+            let conv = c.take().expect("converter already consumed");
+            let mut got: Vec<F> = Vec::with_capacity(m);
+            // (the adaptor is built and dropped outside the measured window: dropping the converter frees its ring)
+            let mut it = catch(|| conv.take(m));
+            let (r, h, _) = measured(|| {
+                catch(|| match it.as_mut() {
+                    Some(it) => {
+                        got.extend(it);
+                        true
+                    }
+                    None => false,
+                })
+            });
+            let r = match r {
+                Some(true) => r_items(enc_frames(&got)),
+                _ => r_panic(),
+            };
+            out.ev("tail", json!({"m": m}), r, json!({"ok": true, "pulls": pulls.get()}), h);
+            continue;
+        }
         assert_eq!(op["ev"], "next");
+        let c = c.as_mut().expect("converter already consumed");
         let (r, h, _) = measured(|| catch(|| c.next()));
-        let pulls = c.source().pulls;
+        let pulls = c.source().pulls.get();
         let r = match r {
             Some(f) => r_val(enc_frame(f)),
             None => r_panic(),
@@ -290,8 +316,14 @@ pub fn gen(rng: &mut Rng, tier: &str, execs: &mut Vec<Vec<Value>>) {
             let src: Vec<Value> = (0..n_src).map(|_| rnd_frame(rng, fmt, ch, cpeak, true)).collect();
             let ctor = *rng.pick(&["scale", "sample", "hz"]);
             let mut ex = vec![json!({"ev":"reset","comp":"sinc_conv","cfg":{"depth":depth,"fmt":fmt,"ch":ch,"ctor":ctor,"src":src}})];
-            for _ in 0..(n_src + depth + 3) {
+            let total = n_src + depth + 3;
+            // every other execution: the last frames are read by consuming the converter through Signal::take
+            let tail = if rng.chance(1, 2) { 1 + rng.below(total as u64) as usize } else { 0 };
+            for _ in 0..(total - tail) {
                 ex.push(json!({"ev":"next","a":{}}));
+            }
+            if tail > 0 {
+                ex.push(json!({"ev":"tail","a":{"m":tail}}));
             }
             execs.push(ex);
             // (3) linearity: a, b, a+b, 2^k a.  Values are chosen so that a+b and 2^k a are exact:
